@@ -503,6 +503,72 @@ theorem safeURL_table :
     safeURL "weird---dashed---Name".toList = "weird-dashed-name".toList ∧
     safeURL "utf8 странное имя для binding".toList = "utf8-binding".toList := by decide
 
+/-! ## how the hook process ends -/
+
+/-- **C14.6 (`executor_fails_iff`).** `RunAndLogLines` reports a failed run for every way a process
+can end except "exited with status 0": every exit status 1, 2, …, 126, 127, 128+n, 255 and every
+terminating signal (where `ExitCode()` is -1). -/
+theorem executor_fails_iff (e : Ending) : executorFails e = !e.exitedZero := by
+  cases e with
+  | exited s => cases s <;> simp [executorFails, cmdRunErr, goSuccess, Ending.exitedZero]
+  | signaled n => simp [executorFails, cmdRunErr, goSuccess, Ending.exitedZero]
+
+theorem exitedZero_iff (e : Ending) : e.exitedZero = true ↔ e = .exited 0 := by
+  cases e with
+  | exited s => cases s <;> simp [Ending.exitedZero]
+  | signaled n => simp [Ending.exitedZero]
+
+/-- what the code makes of a run is what the property reads from it -/
+theorem seen_eq_spec (d : RunDecl) : d.seen = d.spec := by
+  simp [RunDecl.seen, RunDecl.spec, executor_fails_iff]
+
+/-- `RunAndLogLines` and `Hook.Run` test the error of the run with `err != nil` (regenerated from the
+sources: a weaker test — on the exit code, say — breaks this) -/
+theorem run_error_is_checked :
+    ShellOp.Facts.c14ExecRunFailCond = "err != nil" ∧ ShellOp.Facts.c14HookRunFailCond = "err != nil" ∧
+    runErrorChecked = true ∧ ShellOp.Facts.c14FactsStale = false := by decide
+
+/-- **C14.1 in terms of how the process ended (`fail_closed_ending`).** For every configuration,
+path, and every scripted run (ending x response file x other outputs): the answer is
+`allowed: true` only if the hook the path routes to ran, its process EXITED with status 0 — no other
+exit status, no signal —, its other outputs were applied and its response file is one valid response
+with `allowed: true`. -/
+theorem fail_closed_ending (hooks : List Hook) (run : Nat → Binding → RunDecl) (path : Str) (uid : String)
+    (r : Review) (ran : Option (Nat × Binding))
+    (h : respond hooks (fun i b => (run i b).seen) path (.ok uid) = (.review r, ran)) (ha : r.allowed = true) :
+    ∃ i b rr, ran = some (i, b) ∧ route hooks (detect path).1 (detect path).2 = some (i, b) ∧
+      (run i b).ending = .exited 0 ∧ (run i b).othersOk = true ∧ (run i b).file = .valid rr ∧
+      rr.allowed = true := by
+  obtain ⟨i, b, rr, hran, hroute, he, ho, hf, hall⟩ := fail_closed hooks _ path uid r ran h ha
+  refine ⟨i, b, rr, hran, hroute, ?_, ho, hf, hall⟩
+  have he' : (run i b).spec.exitZero = true := by rw [← seen_eq_spec]; exact he
+  exact (exitedZero_iff _).1 he'
+
+/-- a hook process that did not exit zero — any other status, any signal — is a denial with
+"Hook failed", whatever it wrote to its response file before -/
+theorem not_exited_zero_denied (hooks : List Hook) (run : Nat → Binding → RunDecl) (path : Str) (uid : String)
+    (r : Review) (i : Nat) (b : Binding)
+    (h : respond hooks (fun i b => (run i b).seen) path (.ok uid) = (.review r, some (i, b)))
+    (he : (run i b).ending ≠ .exited 0) : r.allowed = false ∧ r.reason = some .hookFailed := by
+  refine failed_task_denied hooks _ path uid r i b h ?_
+  have : (run i b).ending.exitedZero = false := by
+    cases hz : (run i b).ending.exitedZero
+    · rfl
+    · exact absurd ((exitedZero_iff _).1 hz) he
+  simp [taskFails, RunDecl.seen, executor_fails_iff, this]
+
+/-- **C14 as one statement, with the endings.** The property predicate, reading every run as the
+property does (`RunDecl.spec`: exited with status 0 or not), holds of the model, which sees the run
+through the executor (`RunDecl.seen`), for every configuration, path, body and scripted run. -/
+theorem respond_ok_ending (hooks : List Hook) (run : Nat → Binding → RunDecl) (path : Str) (req : Request) :
+    checkObs hooks (fun i b => (run i b).spec) path req
+      (respond hooks (fun i b => (run i b).seen) path req).1
+      (respond hooks (fun i b => (run i b).seen) path req).2 = none := by
+  have : (fun i b => (run i b).seen) = (fun i b => (run i b).spec) := by
+    funext i b; exact seen_eq_spec _
+  rw [this]
+  exact respond_ok hooks _ path req
+
 /-! ## non-vacuity and witnesses -/
 
 section Examples
@@ -627,6 +693,34 @@ theorem shared_context_witness :
     checkHanded twoHooks "/hooks/my-hook".toList "u-A" a = none ∧
     checkHanded twoHooks "/hooks/my-hook".toList "u-A" ⟨2, B .validating "b.example.com", "u-A"⟩
       = some "handed-to-a-hook-or-binding-that-did-not-register-this-path" := by decide
+
+/-- `fail_closed_ending` / `not_exited_zero_denied` are not vacuous: the hook writes `allowed: true`
+and then SIGKILL terminates it, or it exits 137 / 255: denied with "Hook failed"; the same file after
+`exit 0`: allowed -/
+example :
+    let file : FileContent := .valid ⟨true, "", ["w"], ""⟩
+    let p := "/hooks/a-example-com".toList
+    let ran := some (1, B .validating "a.example.com")
+    let denied : Answer × Option (Nat × Binding) := (.review ⟨"u", false, 403, some .hookFailed, [], "", false⟩, ran)
+    respond twoHooks (fun _ _ => (⟨.signaled 9, file, true⟩ : RunDecl).seen) p (.ok "u") = denied ∧
+    respond twoHooks (fun _ _ => (⟨.signaled 15, file, true⟩ : RunDecl).seen) p (.ok "u") = denied ∧
+    respond twoHooks (fun _ _ => (⟨.exited 137, file, true⟩ : RunDecl).seen) p (.ok "u") = denied ∧
+    respond twoHooks (fun _ _ => (⟨.exited 255, file, true⟩ : RunDecl).seen) p (.ok "u") = denied ∧
+    respond twoHooks (fun _ _ => (⟨.exited 0, file, true⟩ : RunDecl).seen) p (.ok "u")
+      = (.review ⟨"u", true, 0, none, ["w"], "", false⟩, ran) := by decide
+
+/-- the excluded variant of `executor_fails_iff`: a failure test on the exit code (`ExitCode() > 0`)
+does not see a process terminated by a signal (`ExitCode()` is -1) — the run would pass as a
+success, its `allowed: true` would be relayed, and the check rejects that answer -/
+theorem exit_code_positive_witness :
+    (decide (goExitCode (.signaled 9) > 0) = false ∧ executorFails (.signaled 9) = true ∧
+      decide (goExitCode (.exited 137) > 0) = true) ∧
+    let d : RunDecl := ⟨.signaled 9, .valid ⟨true, "", [], ""⟩, true⟩
+    let p := "/hooks/a-example-com".toList
+    let r := respond twoHooks (fun _ _ => ⟨!decide (goExitCode d.ending > 0), d.file, d.othersOk⟩) p (.ok "u")
+    r.1 = .review ⟨"u", true, 0, none, [], "", false⟩ ∧
+    checkObs twoHooks (fun _ _ => d.spec) p (.ok "u") r.1 r.2
+      = some "allowed-although-the-hook-failed-or-wrote-no-valid-response" := by decide
 
 end Examples
 
